@@ -57,6 +57,9 @@ pub enum Op {
     /// response handle immediately, then churn allocations
     Answer(u8, u8, u16, bool, u8),
     SettlePromise(u8, u8),
+    /// take a child of a modelled container (tsrun_get / tsrun_array_get), release the parent
+    /// handle, churn allocations so that collections run, then read the child again
+    DetachChild(u8, u16, u8, u8),
 }
 
 #[derive(Clone, Debug, Serialize, Deserialize)]
@@ -72,7 +75,10 @@ pub struct Scn {
 pub struct C17;
 
 const KEYS: [&str; 6] = ["a", "b", "nested", "k", "length", "x y"];
-const DOCS: [&str; 8] = [
+const DOCS: [&str; 11] = [
+    r#"[{"n":42,"in":{"m":[1,2]}},{"n":43},[7,{"q":8}]]"#,
+    r#"{"child":{"n":1,"deep":{"x":[1,{"y":2}]}},"arr":[{"e":1},{"e":2}]}"#,
+    r#"[[{"z":1}],[{"z":2}]]"#,
     r#"{"answer":42,"nested":{"k":"v"}}"#,
     r#"[1,2,{"b":{"c":1}}]"#,
     r#"{"a":[true,null,"s"],"b":-1.5}"#,
@@ -82,7 +88,7 @@ const DOCS: [&str; 8] = [
     r#"{"k":1}"#,
     r#"{"deep":{"deep":{"deep":[1,[2,[3]]]}}}"#,
 ];
-const PROGRAMS: [(&str, Option<&str>); 10] = [
+const PROGRAMS: [(&str, Option<&str>); 11] = [
     ("JSON.stringify(globalThis.hv === undefined ? null : globalThis.hv)", None),
     ("import { order } from \"tsrun:host\"; const r: any = await order({ k: 1 }); JSON.stringify(r === undefined ? null : r)", None),
     ("import { order } from \"tsrun:host\"; const a: any = await order({ k: 1 }); const junk: any[] = []; for (let i = 0; i < 40; i++) { junk.push({ i: i, s: \"j\" + i }); } const b: any = await order({ k: 2 }); JSON.stringify([a === undefined ? null : a, b === undefined ? null : b])", None),
@@ -92,7 +98,7 @@ const PROGRAMS: [(&str, Option<&str>); 10] = [
     ("let x = ;", None),
     ("function f(): any { throw new TypeError(\"boom\"); } f();", None),
     ("import { x } from \"./dep.ts\"; x + 1", Some("/mod/imp.ts")),
-    ("globalThis.keep = { big: [1, 2, 3], s: \"kept\" }; for (let i = 0; i < 30; i++) { const t = { i: i }; } JSON.stringify(globalThis.keep)", None),
+    ("globalThis.keep = { big: [1, 2, 3], s: \"kept\" }; for (let i = 0; i < 30; i++) { const t = { i: i }; } JSON.stringify(globalThis.keep)", None),    ("const sy = Symbol(\"t\"); globalThis.symobj = { a: 1, [sy]: 2, b: { [Symbol.iterator]: 3, c: 4 } }; globalThis.symonly = { [sy]: 1 }; Object.keys(globalThis.symobj).join(\",\")", None),
 ];
 
 #[derive(Clone)]
@@ -729,9 +735,28 @@ impl<'a> Exec<'a> {
                         let mut n: usize = 0;
                         let ks = tsrun_keys(self.ctxs[c].ptr, self.ptr_of(oi), &mut n);
                         if !ks.is_null() {
+                            let mut got: Vec<String> = Vec::new();
                             for i in 0..n {
-                                if let Some(Err(m)) = read_cstr(*ks.add(i)) {
-                                    self.fail("returned_string_not_valid_utf8", m, json!({"call": "tsrun_keys"}));
+                                let kp = *ks.add(i);
+                                if kp.is_null() {
+                                    self.fail("keys_array_has_null_entry", format!("entry {} of {}", i, n), json!({}));
+                                    break;
+                                }
+                                match read_cstr(kp) {
+                                    Some(Ok(k)) => got.push(k),
+                                    Some(Err(m)) => self.fail("returned_string_not_valid_utf8", m, json!({"call": "tsrun_keys"})),
+                                    None => {}
+                                }
+                            }
+                            if let Some(i) = oi
+                                && let Some(m) = self.hs[i].model.as_ref().and_then(|m| m.as_object())
+                            {
+                                let mut want: Vec<String> = m.keys().cloned().collect();
+                                let mut g2 = got.clone();
+                                want.sort();
+                                g2.sort();
+                                if want != g2 {
+                                    self.fail("keys_differ_from_model", format!("{:?}", got), json!({"model_keys": want, "observed": got}));
                                 }
                             }
                             tsrun_free_strings(ks, n);
@@ -895,7 +920,7 @@ impl<'a> Exec<'a> {
                 Op::GetGlobal(c, which) => {
                     if let Some(c) = self.live_ctx(*c) {
                         self.recheck_error(c);
-                        let name = ["hv", "cb", "keep", "JSON", "nope"][*which as usize % 5];
+                        let name = ["hv", "cb", "keep", "JSON", "nope", "Map", "Set", "Symbol", "Array", "Promise", "symobj", "Object", "Math", "symonly"][*which as usize % 14];
                         let np = if which % 13 == 12 { ptr::null() } else { self.c(name) };
                         let r = tsrun_get_global(self.ctxs[c].ptr, np);
                         let p = self.value_result(c, r, "tsrun_get_global", np.is_null());
@@ -1127,6 +1152,52 @@ impl<'a> Exec<'a> {
                         }
                     }
                 }
+                Op::DetachChild(c, h, k, churn) => {
+                    if let Some(c) = self.live_ctx(*c) {
+                        self.recheck_error(c);
+                        let ctx = self.ctxs[c].ptr;
+                        // a modelled container of this context
+                        let cands: Vec<usize> = (0..self.hs.len())
+                            .filter(|i| !self.hs[*i].freed && self.hs[*i].ctx == c && self.hs[*i].model.as_ref().map(|m| (m.is_object() || m.is_array()) && m.as_object().map(|o| !o.is_empty()).unwrap_or(true) && m.as_array().map(|a| !a.is_empty()).unwrap_or(true)).unwrap_or(false))
+                            .collect();
+                        if cands.is_empty() {
+                            return;
+                        }
+                        let pi = cands[*h as usize % cands.len()];
+                        let pm = self.hs[pi].model.clone().unwrap_or(Value::Null);
+                        let (child_ptr, child_model) = if let Some(a) = pm.as_array() {
+                            let idx = *k as usize % a.len();
+                            let r = tsrun_array_get(ctx, self.hs[pi].ptr, idx);
+                            (self.value_result(c, r, "tsrun_array_get", false), a[idx].clone())
+                        } else if let Some(o) = pm.as_object() {
+                            let keys: Vec<&String> = o.keys().collect();
+                            let key = keys[*k as usize % keys.len()].clone();
+                            let kp = self.c(&key);
+                            let r = tsrun_get(ctx, self.hs[pi].ptr, kp);
+                            (self.value_result(c, r, "tsrun_get", false), o[&key].clone())
+                        } else {
+                            return;
+                        };
+                        if child_ptr.is_null() {
+                            return;
+                        }
+                        // release the parent: the child handle alone must keep the child alive
+                        tsrun_value_free(self.hs[pi].ptr);
+                        self.hs[pi].freed = true;
+                        self.rep.bump("fault_parent_released_while_child_held", 1);
+                        for j in 0..(20 + (*churn as usize % 3) * 60) {
+                            let junk = self.c(&format!("{{\"junk\":[{},{{\"j\":{}}}]}}", j, j));
+                            let jr = tsrun_json_parse(ctx, junk);
+                            if !jr.value.is_null() {
+                                tsrun_value_free(jr.value);
+                            }
+                        }
+                        self.forget_error(c);
+                        if let Some(hi) = self.push_handle(child_ptr, c, Some(child_model)) {
+                            self.check_model(c, hi, "child read after its parent handle was released");
+                        }
+                    }
+                }
                 Op::SettlePromise(c, ok) => {
                     if let Some(c) = self.live_ctx(*c) {
                         self.recheck_error(c);
@@ -1162,8 +1233,8 @@ impl<'a> Exec<'a> {
 pub fn generate_history(rng: &mut Rng) -> Scn {
     let n = if rng.chance(0.6) { rng.range(5, 40) } else { rng.range(40, 200) } as usize;
     let mut ops = vec![Op::NewCtx];
-    let w: [u32; 34] = [
-        1, 1, 8, 6, 5, 5, 4, 5, 4, 7, 6, 6, 8, 2, 2, 3, 3, 2, 4, 5, 4, 7, 3, 3, 5, 3, 4, 1, 2, 1, 2, 3, 9, 4,
+    let w: [u32; 35] = [
+        1, 1, 8, 6, 5, 5, 4, 5, 4, 8, 6, 6, 8, 2, 2, 5, 3, 2, 4, 5, 4, 7, 3, 3, 5, 5, 4, 1, 2, 1, 2, 3, 9, 4, 5,
     ];
     for _ in 0..n {
         let a = (rng.next_u64() & 0xff) as u8;
@@ -1204,7 +1275,8 @@ pub fn generate_history(rng: &mut Rng) -> Scn {
             30 => Op::ProvideModule(a, c),
             31 => Op::NullCalls(c),
             32 => Op::Answer(a, c, b, rng.chance(0.6), (d & 0xff) as u8),
-            _ => Op::SettlePromise(a, c),
+            33 => Op::SettlePromise(a, c),
+            _ => Op::DetachChild(a, b, c, (d & 0xff) as u8),
         });
     }
     Scn {
